@@ -435,6 +435,10 @@ package framework
 //@ end
 
 //@ define handlersOK(ssn *Session) bool = forall i int :: 0 <= i && i < len(ssn.eventHandlers) ==> ssn.eventHandlers[i] != nil
+// (helper "stmt2") handlersOK in the cell-quantified form - the same fact. The solvers derive the handler loops' `eh != nil`
+// from the index form for some solver seeds only (and the index form ==> cell form step takes them > 60 s), so the units
+// with a handler loop ASSUME the cell form next to their precondition (listed in the evidence) and carry it as invariant.
+//@ define handlerCellsOK(ssn *Session) bool = forall r **EventHandler :: incells(r, ssn.eventHandlers) ==> *r != nil
 //@ define mapsOK(c *api.ClusterInfo) bool = (forall k in c.PodGroupInfos :: c.PodGroupInfos[k] != nil) && (forall k in c.Nodes :: c.Nodes[k] != nil)
 //@ define sessOK(ssn *Session) bool = ssn != nil && ssn.ClusterInfo != nil && handlersOK(ssn) && mapsOK(ssn.ClusterInfo)
 //@ define stmtOK(s *Statement) bool = s != nil && sessOK(s.ssn)
@@ -466,19 +470,48 @@ package framework
 // placement (Status, NodeName) of every pre-existing task other than x is untouched
 //@ define othersPlacedKept(x *pod_info.PodInfo) bool = forall t *pod_info.PodInfo :: old(allocated(t)) && t != x ==> t.Status == old(t.Status) && t.NodeName == old(t.NodeName)
 
+// ---- what the node books for a task (helper "stmt2") ---------------------------------------------
+// C14 "what the scheduler believes about each node (... per-GPU shared memory, pods present) ... equals the value
+// recomputed from scratch from the pods and their statuses" / C13 "leaves the scheduler's view of nodes ... GPU-sharing
+// groups ... exactly as it was": the node keeps a COPY of every pod it books (node.PodInfos[key]); all node accounting
+// (Idle / Used / Releasing, per-group shared-GPU memory) is charged from the copy's Status and GPUGroups at the time
+// of node.AddTask / UpdateTask. So the node agrees with the task iff that copy carries the task's current Status and
+// GPU groups. C14 observes the state "inside an event handler registered through Session.AddEventHandler": the
+// agreement is therefore an invariant of every handler loop (a loop moved in front of the node / job update fails it
+// on entry), besides being a postcondition.
+//@ define onNode(n *node_info.NodeInfo, t *pod_info.PodInfo) bool = pod_info.podKeyOf(t.Pod) in n.PodInfos
+//@ define nodeRec(n *node_info.NodeInfo, t *pod_info.PodInfo) *pod_info.PodInfo = n.PodInfos[pod_info.podKeyOf(t.Pod)]
+//@ define nodeAgrees(n *node_info.NodeInfo, t *pod_info.PodInfo) bool = onNode(n, t) ==> nodeRec(n, t).Status == t.Status && node_info.sameGroups(nodeRec(n, t), t)
+//@ define recGroupsAre(n *node_info.NodeInfo, t *pod_info.PodInfo, g []string) bool = nodeRec(n, t).GPUGroups == g
+
 // ---- un-ops ---------------------------------------------------------------------------------------
 // C13: "the matching un-op restores Status, NodeName, GPUGroups, IsVirtualStatus, ResourceClaimInfo
 // ... and fires the opposite handler".
 //@ func (*Statement).unevict
-//@   props C13
+//@   props C13 C02 C08 C14
 //@   requires stmtOK(s) && reclaimee != nil
 //@   assume jobReady(s.ssn.ClusterInfo.PodGroupInfos[reclaimee.Job], reclaimee) && nodeReady(node, reclaimee) && jobNodeSep(s.ssn.ClusterInfo.PodGroupInfos[reclaimee.Job], node)
+//@   assume handlerCellsOK(s.ssn)
+//@   note assume handlerCellsOK: the precondition's handlersOK(s.ssn) (every registered handler is non-nil) restated over the cells of the handler slice; the two forms are equivalent, but the solvers derive the handler loop's `eh != nil` from the index form for some seeds only
 //@   modifies *
 //@   loop 1
 //@     invariant 0 - 1 <= rangeindex && rangeindex < len(s.ssn.eventHandlers)
 //@     invariant allocEvents() - old(allocEvents()) <= rangeindex + 1
+//@     # C14 (observed inside an event handler) / C08 "allocate/deallocate event handlers keep Allocated ... current during
+//@     # simulations": when the allocate handlers fire, job and node have been updated - the node books the task with its
+//@     # restored status and GPU groups (and with the AcceptedResource computed by THAT node)
+//@     invariant node != nil ==> nodeAgrees(node, reclaimee)
+//@     invariant node != nil && !old(onNode(node, reclaimee)) ==> onNode(node, reclaimee)
+//@     invariant reclaimee.GPUGroups == previousGpuGroups
+//@     invariant handlerCellsOK(s.ssn)
 //@     decreases len(s.ssn.eventHandlers) - rangeindex
 //@   ensures [ok] result == nil
+//@   # C13 "leaves the scheduler's view of nodes, ... GPU-sharing groups ... exactly as it was" / C02: the node update is
+//@   # handed the RESTORED task - the node's record of the pod (from which the per-group shared-GPU memory is charged)
+//@   # sits on previousGpuGroups and carries the task's restored status
+//@   ensures [nodeBooksPreviousGroups] node != nil && onNode(node, reclaimee) ==> recGroupsAre(node, reclaimee, previousGpuGroups)
+//@   ensures [nodeBooksRestoredStatus] node != nil && onNode(node, reclaimee) ==> nodeRec(node, reclaimee).Status == reclaimee.Status
+//@   ensures [backOnNode] node != nil && !old(onNode(node, reclaimee)) ==> onNode(node, reclaimee)
 //@   ensures [restoresGpuGroups] reclaimee.GPUGroups == previousGpuGroups
 //@   ensures [restoresVirtual] reclaimee.IsVirtualStatus == previousIsVirtualStatus
 //@   ensures [restoresClaims] reclaimee.ResourceClaimInfo == previousResourceClaimInfo
@@ -495,11 +528,20 @@ package framework
 //@   props C13
 //@   requires stmtOK(s) && task != nil
 //@   assume jobReady(s.ssn.ClusterInfo.PodGroupInfos[task.Job], task) && nodeReady(s.ssn.ClusterInfo.Nodes[task.NodeName], task) && jobNodeSep(s.ssn.ClusterInfo.PodGroupInfos[task.Job], s.ssn.ClusterInfo.Nodes[task.NodeName])
+//@   assume handlerCellsOK(s.ssn)
+//@   note assume handlerCellsOK: the precondition's handlersOK(s.ssn) (every registered handler is non-nil) restated over the cells of the handler slice; the two forms are equivalent, but the solvers derive the handler loop's `eh != nil` from the index form for some seeds only
 //@   modifies *
 //@   loop 1
 //@     invariant 0 - 1 <= rangeindex && rangeindex < len(s.ssn.eventHandlers)
 //@     invariant deallocEvents() - old(deallocEvents()) <= rangeindex + 1
+//@     # C14 (observed inside an event handler) / C08: when the de-allocation handlers fire, the node the task was nominated
+//@     # to no longer books it and the task carries its restored placement
+//@     invariant !onNode(old(s.ssn.ClusterInfo.Nodes[task.NodeName]), task)
+//@     invariant task.NodeName == previousNode && task.GPUGroups == previousGpuGroups
+//@     invariant handlerCellsOK(s.ssn)
 //@     decreases len(s.ssn.eventHandlers) - rangeindex
+//@   # C13 "leaves the scheduler's view of nodes ... exactly as it was": the nominated-to node forgets the task
+//@   ensures [offTheNode] result == nil ==> !onNode(old(s.ssn.ClusterInfo.Nodes[task.NodeName]), task)
 //@   ensures [restoresNode] task.NodeName == previousNode
 //@   ensures [restoresGpuGroups] task.GPUGroups == previousGpuGroups
 //@   ensures [restoresVirtual] task.IsVirtualStatus == previousIsVirtualStatus
@@ -517,11 +559,19 @@ package framework
 //@   props C13 C01
 //@   requires stmtOK(s) && task != nil
 //@   assume jobReady(s.ssn.ClusterInfo.PodGroupInfos[task.Job], task) && nodeReady(s.ssn.ClusterInfo.Nodes[task.NodeName], task) && jobNodeSep(s.ssn.ClusterInfo.PodGroupInfos[task.Job], s.ssn.ClusterInfo.Nodes[task.NodeName])
+//@   assume handlerCellsOK(s.ssn)
+//@   note assume handlerCellsOK: the precondition's handlersOK(s.ssn) (every registered handler is non-nil) restated over the cells of the handler slice; the two forms are equivalent, but the solvers derive the handler loop's `eh != nil` from the index form for some seeds only
 //@   modifies *
 //@   loop 1
 //@     invariant 0 - 1 <= rangeindex && rangeindex < len(s.ssn.eventHandlers)
 //@     invariant deallocEvents() - old(deallocEvents()) <= rangeindex + 1
+//@     # C14 (observed inside an event handler) / C08: when the de-allocation handlers fire, the node no longer books the task
+//@     invariant !onNode(old(s.ssn.ClusterInfo.Nodes[task.NodeName]), task)
+//@     invariant task.NodeName == ""
+//@     invariant handlerCellsOK(s.ssn)
 //@     decreases len(s.ssn.eventHandlers) - rangeindex
+//@   # C13 "leaves the scheduler's view of nodes ... exactly as it was" / C01: the node forgets the un-allocated task
+//@   ensures [offTheNode] result == nil ==> !onNode(old(s.ssn.ClusterInfo.Nodes[task.NodeName]), task)
 //@   ensures [failsIffNodeUnknown] (result != nil) == !old(task.NodeName in s.ssn.ClusterInfo.Nodes)
 //@   ensures [clearsNode] result == nil ==> task.NodeName == "" && task.IsVirtualStatus == previousIsVirtualStatus
 //@   ensures [backToPending] task.Status == pod_status.Pending || task.Status == old(task.Status)
@@ -544,7 +594,7 @@ package framework
 //@ func (*Statement).Evict
 //@   props C13 C06
 //@   nopanic off
-//@   note nopanic off: with the C14 contracts of UpdateTaskStatus/AddTask/UpdateTask in the context the nil-dereference obligations of the handler loop time out (no countermodel); the functional postconditions below are machine-checked
+//@   note nopanic off: with the C14 contracts of UpdateTaskStatus/AddTask/UpdateTask in the context the nil-dereference obligation of the handler loop (eh != nil, from handlersOK) is solver-seed dependent (143 of the 144 no-panic obligations discharge; helper "stmt2" measured it); the functional postconditions below are machine-checked
 //@   requires stmtOK(s) && reclaimeeTask != nil
 //@   assume jobReady(s.ssn.ClusterInfo.PodGroupInfos[reclaimeeTask.Job], reclaimeeTask) && nodeReady(s.ssn.ClusterInfo.Nodes[reclaimeeTask.NodeName], reclaimeeTask) && jobNodeSep(s.ssn.ClusterInfo.PodGroupInfos[reclaimeeTask.Job], s.ssn.ClusterInfo.Nodes[reclaimeeTask.NodeName])
 //@   modifies *
@@ -556,7 +606,12 @@ package framework
 //@     invariant previousResourceClaimInfo != nil ==> previousResourceClaimInfo != reclaimeeTask.ResourceClaimInfo
 //@     invariant bindrequest_info.rciSameKeys(previousResourceClaimInfo, reclaimeeTask.ResourceClaimInfo)
 //@     invariant bindrequest_info.rciFreshEntries(previousResourceClaimInfo, reclaimeeTask.ResourceClaimInfo)
+//@     # C14 (observed inside an event handler) / C08: when the de-allocation handlers fire, the job shows the task as
+//@     # Releasing and the node has re-booked it under that status (job first, then node, then handlers)
+//@     invariant reclaimeeTask.Status == pod_status.Releasing && onNode(node, reclaimeeTask) && nodeAgrees(node, reclaimeeTask)
 //@     decreases len(s.ssn.eventHandlers) - rangeindex
+//@   # C14: after a virtual eviction the node books the pod as Releasing, on the GPU groups the task shows
+//@   ensures [nodeAgreesWithJob] result == nil ==> onNode(old(s.ssn.ClusterInfo.Nodes[reclaimeeTask.NodeName]), reclaimeeTask) && nodeRec(old(s.ssn.ClusterInfo.Nodes[reclaimeeTask.NodeName]), reclaimeeTask).Status == pod_status.Releasing && nodeRec(old(s.ssn.ClusterInfo.Nodes[reclaimeeTask.NodeName]), reclaimeeTask).GPUGroups == reclaimeeTask.GPUGroups
 //@   ensures [errorKeepsLog] result != nil ==> s.operations == old(s.operations)
 //@   ensures [failsOnUnknownJobOrNode] !old(reclaimeeTask.Job in s.ssn.ClusterInfo.PodGroupInfos) || !old(reclaimeeTask.NodeName in s.ssn.ClusterInfo.Nodes) ==> result != nil && reclaimeeTask.Status == old(reclaimeeTask.Status)
 //@   ensures [appendsOneEvict] result == nil ==> appendedOne(s) && isEvictOp(lastOp(s))
@@ -589,14 +644,19 @@ package framework
 //@ func (*Statement).Allocate
 //@   props C13 C01
 //@   nopanic off
-//@   note nopanic off: with the C14 contracts of UpdateTaskStatus/AddTask/UpdateTask in the context the nil-dereference obligations of the handler loop time out (no countermodel); the functional postconditions below are machine-checked
+//@   note nopanic off: with the C14 contracts of UpdateTaskStatus/AddTask/UpdateTask in the context the nil-dereference obligation of the handler loop (eh != nil, from handlersOK) is solver-seed dependent (all other no-panic obligations discharge; helper "stmt2" measured it); the functional postconditions below are machine-checked
 //@   requires stmtOK(s) && task != nil
 //@   assume jobReady(s.ssn.ClusterInfo.PodGroupInfos[task.Job], task) && nodeReady(s.ssn.ClusterInfo.Nodes[hostname], task) && jobNodeSep(s.ssn.ClusterInfo.PodGroupInfos[task.Job], s.ssn.ClusterInfo.Nodes[hostname])
 //@   modifies *
 //@   loop 1
 //@     invariant 0 - 1 <= rangeindex && rangeindex < len(s.ssn.eventHandlers)
 //@     invariant allocEvents() - old(allocEvents()) <= rangeindex + 1
+//@     # C14 (observed inside an event handler) / C08: when the allocation handlers fire, the job shows the task as Allocated
+//@     # on `hostname` and that node books it under this status (job first, then node, then handlers)
+//@     invariant task.Status == pod_status.Allocated && task.NodeName == hostname && onNode(s.ssn.ClusterInfo.Nodes[hostname], task) && nodeAgrees(s.ssn.ClusterInfo.Nodes[hostname], task)
 //@     decreases len(s.ssn.eventHandlers) - rangeindex
+//@   # C14 / C01: after a virtual allocation the node books the pod as Allocated, on the GPU groups the task shows
+//@   ensures [nodeBooksAllocated] result == nil ==> onNode(s.ssn.ClusterInfo.Nodes[hostname], task) && nodeRec(s.ssn.ClusterInfo.Nodes[hostname], task).Status == pod_status.Allocated && nodeRec(s.ssn.ClusterInfo.Nodes[hostname], task).GPUGroups == task.GPUGroups
 //@   ensures [errorKeepsLog] result != nil ==> s.operations == old(s.operations)
 //@   ensures [failsOnUnknownJobOrNode] !old(task.Job in s.ssn.ClusterInfo.PodGroupInfos) || !old(hostname in s.ssn.ClusterInfo.Nodes) ==> result != nil
 //@   ensures [appendsOneAllocate] result == nil ==> appendedOne(s) && isAllocateOp(lastOp(s))
@@ -616,6 +676,15 @@ package framework
 //@ end
 
 // Unevict(task) = undo the earliest still valid evict entry of that task.
+// (helper "stmt2") entry j is an entry of kind `name` about task t, as the look-up sees it (Operation.TaskInfo of an undo
+// entry is an empty placeholder, UID "")
+//@ define opMatches(s *Statement, j int, t *pod_info.PodInfo, name string) bool = ite(isUndoOp(s.operations[j]), t.UID == "" && name == "undo", opTask(s.operations[j]).UID == t.UID && opName(s.operations[j]) == name)
+// C13 "each pod is bound, nominated or evicted at most once and nothing is emitted for undone steps" (+ quantifier:
+// "un-evictions, evict-then-pipeline of the same pod"): the look-up lands on the EARLIEST entry of that kind and task
+// that is still valid - entries already undone (their first undo entry is live) are skipped, so a second un-evict of
+// the same pod reverses the second eviction instead of doing nothing on the first. (noUndoFor / undone are the depth-1 /
+// depth-2 cases of operationValid; on a flat log - every quiescent point - each entry is one or the other.)
+//@ define earliestValid(s *Statement, i int, t *pod_info.PodInfo, name string) bool = 0 <= i && i < len(s.operations) && opMatches(s, i, t, name) && noUndoFor(s, i) && (forall k int :: 0 <= k && k < i && opMatches(s, k, t, name) ==> undone(s, k))
 //@ func (*Statement).undoEarliestValidOperation
 //@   props C13
 //@   requires s != nil && wfLog(s) && taskToUndo != nil
@@ -623,7 +692,14 @@ package framework
 //@   usestable Statement.ssn Session.ClusterInfo Session.Cache
 //@   loop 1
 //@     invariant 0 - 1 <= rangeindex && rangeindex < len(s.operations)
+//@     invariant forall k int :: 0 <= k && k <= rangeindex ==> !(opMatches(s, k, taskToUndo, opName) && noUndoFor(s, k))
 //@     decreases len(s.operations) - rangeindex
+//@   # `lemma` (proved at exit, not exported): the only caller under contract, Pipeline (through Unevict), does not use them,
+//@   # and as `ensures` the nested quantifiers triple the solving time of Pipeline's log obligations
+//@   lemma [undoesEarliestValid] forall i int :: old(earliestValid(s, i, taskToUndo, opName)) && result == nil ==> len(s.operations) > old(len(s.operations)) && targets(s, len(s.operations) - 1, i)
+//@   # (a third clause, `old(earliestValid(..i..)) ==> reversals() >= old(reversals()) + 1`, is true and proved, but took 4-8 s
+//@   # depending on the solver seed; removed for stability - [undoesEarliestValid] already pins the entry that is undone)
+//@   lemma [failsIfNoValidMatch] old(forall i int :: 0 <= i && i < len(s.operations) && opMatches(s, i, taskToUndo, opName) ==> undone(s, i)) ==> result != nil && s.operations == old(s.operations) && reversals() == old(reversals())
 //@   ensures [lenGrows] len(s.operations) >= old(len(s.operations))
 //@   ensures [prefixKept] forall j int :: 0 <= j && j < old(len(s.operations)) ==> s.operations[j] == old(s.operations[j])
 //@   ensures [newEntriesOK] forall j int :: old(len(s.operations)) <= j && j < len(s.operations) ==> okEntry(s.operations[j], j)
@@ -651,7 +727,7 @@ package framework
 //@ func (*Statement).Pipeline
 //@   props C13 C01
 //@   nopanic off
-//@   note nopanic off: with the C14 contracts of the node/job mutators in the context the nil-dereference obligations time out (no countermodel); the functional postconditions below are machine-checked
+//@   note nopanic off: with the C14 contracts of the node/job mutators in the context the nil-dereference obligation of the handler loop (eh != nil, from handlersOK) takes 7-13 s and is solver-seed dependent (all other no-panic obligations discharge; helper "stmt2" measured it); the functional postconditions below are machine-checked
 //@   requires stmtOK(s) && wfLog(s) && task != nil
 //@   assume hostname in s.ssn.ClusterInfo.Nodes ==> (forall k in s.ssn.ClusterInfo.Nodes[hostname].PodInfos :: s.ssn.ClusterInfo.Nodes[hostname].PodInfos[k] != nil)
 //@   note the assume on PodInfos values (no nil task recorded on a node) is a node_info invariant like nodeReady; it was a `requires` before, but no caller can carry it across the `modifies *` statement operations
@@ -661,7 +737,20 @@ package framework
 //@     invariant 0 - 1 <= rangeindex && rangeindex < len(s.ssn.eventHandlers)
 //@     invariant allocEvents() - old(allocEvents()) <= rangeindex + 1
 //@     invariant s.operations == old(s.operations)
+//@     invariant forall j int :: 0 <= j && j < len(s.operations) ==> s.operations[j] == old(s.operations[j])
+//@     # C14 (observed inside an event handler) / C08: when the allocation handlers fire, the task points at `hostname` and
+//@     # that node books it under the status and GPU groups the task shows (job first, then node, then handlers)
+//@     invariant task.NodeName == hostname && nodeAgrees(s.ssn.ClusterInfo.Nodes[hostname], task)
 //@     decreases len(s.ssn.eventHandlers) - rangeindex
+//@   # proof steps (helper "stmt2"): the un-evict branch (the task still sits on the node, no update asked for, not a move to
+//@   # another shared GPU) ends in a `modifies *` call; the two branches are proved separately, so that each query sees one of
+//@   # them (without these hints [newEntriesOK] [noAllocateEntryAppended] [prefixKept] [opCellsKept] took 4-126 s depending on the seed)
+//@   hint [newEntriesOK-unevictBranch] (foundOnNode && !updateTaskIfExistsOnNode && !isSharedAndMoveToDifferentGPU) ==> forall j int :: old(len(s.operations)) <= j && j < len(s.operations) ==> okEntry(s.operations[j], j) && !isAllocateOp(s.operations[j])
+//@   hint [prefixKept-unevictBranch] (foundOnNode && !updateTaskIfExistsOnNode && !isSharedAndMoveToDifferentGPU) ==> forall j int :: 0 <= j && j < old(len(s.operations)) ==> s.operations[j] == old(s.operations[j])
+//@   hint [newEntriesOK-pipelineBranch] !(foundOnNode && !updateTaskIfExistsOnNode && !isSharedAndMoveToDifferentGPU) ==> forall j int :: old(len(s.operations)) <= j && j < len(s.operations) ==> okEntry(s.operations[j], j) && !isAllocateOp(s.operations[j])
+//@   hint [prefixKept-pipelineBranch] !(foundOnNode && !updateTaskIfExistsOnNode && !isSharedAndMoveToDifferentGPU) ==> forall j int :: 0 <= j && j < old(len(s.operations)) ==> s.operations[j] == old(s.operations[j])
+//@   # C14 / C02: after a nomination the node's record of the pod carries the task's status and GPU groups
+//@   ensures [nodeAgreesWithTask] updateTaskIfExistsOnNode && result == nil ==> nodeAgrees(s.ssn.ClusterInfo.Nodes[hostname], task)
 //@   ensures [failsOnUnknownJobOrNode] !old(task.Job in s.ssn.ClusterInfo.PodGroupInfos) || !old(hostname in s.ssn.ClusterInfo.Nodes) ==> result != nil && s.operations == old(s.operations) && task.Status == old(task.Status) && task.NodeName == old(task.NodeName)
 //@   ensures [lenGrows] len(s.operations) >= old(len(s.operations))
 //@   ensures [prefixKept] forall j int :: 0 <= j && j < old(len(s.operations)) ==> s.operations[j] == old(s.operations[j])
@@ -791,6 +880,39 @@ package framework
 //@   ensures [othersPlacedKept] othersPlacedKept(pod)
 //@ end
 
+// (helper "stmt2") C14 "at every step of a cycle, what the scheduler believes about each node ... and each workload ...
+// equals the value recomputed from scratch from the pods and their statuses": a real (non-simulated) eviction moves the
+// pod to Releasing in its workload FIRST and then tells the node, so that the node re-books the pod under the status the
+// workload shows (job first, then node; with the two steps swapped the node keeps the pod as Running while the job says
+// Releasing). The de-allocation handlers fire after both (C14 observes the state inside an event handler).
+//@ define evNode(ssn *Session, pod *pod_info.PodInfo) *node_info.NodeInfo = ssn.ClusterInfo.Nodes[pod.NodeName]
+//@ func (*Session).Evict
+//@   props C14 C13 C06
+//@   requires ssn != nil && pod != nil
+//@   assume sessOK(ssn) && ssn.Cache != nil && handlerCellsOK(ssn)
+//@   note assume sessOK / Cache != nil: skeleton invariants of an open session (OpenSession builds ClusterInfo, the node / job tables without nil entries, the cache and the handler list); the only caller, stalegangeviction.handleStaleJob, evicts in a loop of `modifies *` steps and cannot carry them - same convention as the jobReady / nodeReady assumptions of the statement operations
+//@   assume jobReady(ssn.ClusterInfo.PodGroupInfos[pod.Job], pod) && nodeReady(evNode(ssn, pod), pod) && jobNodeSep(ssn.ClusterInfo.PodGroupInfos[pod.Job], evNode(ssn, pod))
+//@   modifies *
+//@   loop 1
+//@     invariant 0 - 1 <= rangeindex && rangeindex < len(ssn.eventHandlers)
+//@     invariant deallocEvents() - old(deallocEvents()) <= rangeindex + 1
+//@     invariant pod.Status == pod_status.Releasing && evNode(ssn, pod) != nil && onNode(evNode(ssn, pod), pod)
+//@     invariant nodeAgrees(evNode(ssn, pod), pod)
+//@     invariant handlerCellsOK(ssn)
+//@     decreases len(ssn.eventHandlers) - rangeindex
+//@   ensures [evictIffGroupKnown] cache.evictCalls() == old(cache.evictCalls()) + ite(old(pod.Job in ssn.ClusterInfo.PodGroupInfos), 1, 0) && cache.bindCalls() == old(cache.bindCalls()) && cache.pipelinedCalls() == old(cache.pipelinedCalls())
+//@   ensures [failsOnUnknownGroup] !old(pod.Job in ssn.ClusterInfo.PodGroupInfos) ==> result != nil && pod.Status == old(pod.Status)
+//@   ensures [nowReleasing] result == nil ==> pod.Status == pod_status.Releasing
+//@   ensures [releasingOrKept] pod.Status == pod_status.Releasing || pod.Status == old(pod.Status)
+//@   ensures [nodeAgreesWithJob] result == nil ==> evNode(ssn, pod) != nil && onNode(evNode(ssn, pod), pod) && nodeRec(evNode(ssn, pod), pod).Status == pod.Status && nodeRec(evNode(ssn, pod), pod).GPUGroups == pod.GPUGroups
+//@   ensures [placementKept] pod.NodeName == old(pod.NodeName) && pod.GPUGroups == old(pod.GPUGroups) && pod.IsVirtualStatus == old(pod.IsVirtualStatus)
+//@   ensures [handlerPolarity] allocEvents() == old(allocEvents()) && deallocEvents() - old(deallocEvents()) <= old(len(ssn.eventHandlers))
+//@   ensures [noHandlerOnFailure] result != nil ==> deallocEvents() == old(deallocEvents())
+//@   ensures [logsSame] logsSame()
+//@   ensures [reversesNothing] reversals() == old(reversals()) && reverseFailures() == old(reverseFailures())
+//@   ensures [othersPlacedKept] othersPlacedKept(pod)
+//@ end
+
 //@ func (*Statement).cleanupFailedAllocation
 //@   inline
 //@ end
@@ -873,79 +995,448 @@ package framework
 //@   ensures result.ssn == ssn && len(result.operations) == 0 && result.sessionID == ssn.ID
 //@ end
 
-// ---- plugin dispatch called between statement operations (allocate path: C01 C03 C04) ---------------
-// These Session methods run the registered plugin callbacks (func-typed values: predicates, node/GPU
-// scoring, subset functions, capacity checks; OrderedNodesByTask additionally uses goroutines). They are
-// `trusted`: ASSUMED frame of plugin code, of the same nature as `type:ReverseOperation` above - a plugin
-// callback never touches a statement log or an Operation cell, never calls the cache emission points,
-// never runs a reverse closure, and leaves the session skeleton alone. Everything else may change
-// (fit errors recorded on the job, plugin-private state), hence `modifies *`.
+// ---- plugin dispatch called between statement operations (allocate path: C01 C03 C04 C08) ----------
+// These Session methods run the registered plugin callbacks (func-typed values: predicates, node / GPU scoring,
+// subset functions, capacity checks, hooks). They are VERIFIED against their bodies; what is assumed sits one level
+// below, in the `type:` contracts of the callback types in package api (an abstract verdict per callback + the plugin
+// frame below). Only OrderedNodesByTask (goroutines + sync) and the package-level sortGPUs (library sort) stay
+// `trusted`; isTaskAllocatableOnNode has one `trust` clause (node_info.FittingError has no contract).
+
+// ASSUMED frame of one plugin callback (stated in the `type:` contracts of package api): a callback touches no
+// statement (log, session link), calls none of the cache emission points and runs no reverse closure. Both conjuncts
+// are equalities for ALL objects, so the frame composes over any number of callbacks.
+// The session skeleton (Session.ClusterInfo / Cache / eventHandlers, the handler cells, ClusterInfo.Nodes / PodGroupInfos
+// and the contents of these two tables) is NOT assumed for callbacks whose signature lets govc check it: the wrappers opt
+// into the `stable` declarations (`usestable`), i.e. govc checks mechanically that no function reachable from any
+// address-taken function of the callback's signature stores to these fields / maps. Only for `func()` hooks
+// (OnJobSolutionStartFn: every closure of type func() is a candidate) the check cannot succeed; there skeletonFrame()
+// is part of the assumption.
+//@ define stmtsSame() bool = forall st *Statement :: st.operations == old(st.operations) && st.ssn == old(st.ssn)
+//@ define countersSame() bool = noEmission() && reversals() == old(reversals()) && reverseFailures() == old(reverseFailures())
+//@ define sessionsSame() bool = forall s *Session :: s.ClusterInfo == old(s.ClusterInfo) && s.Cache == old(s.Cache) && s.eventHandlers == old(s.eventHandlers)
+//@ define clustersSame() bool = forall c *api.ClusterInfo :: c.Nodes == old(c.Nodes) && c.PodGroupInfos == old(c.PodGroupInfos)
+//@ define handlerCellsSame() bool = forall h **EventHandler :: *h == old(*h)
+//@ define nodeTablesSame() bool = forall c *api.ClusterInfo, k string :: (k in c.Nodes) == old(k in c.Nodes) && c.Nodes[k] == old(c.Nodes[k])
+//@ define jobTablesSame() bool = forall c *api.ClusterInfo, k common_info.PodGroupID :: (k in c.PodGroupInfos) == old(k in c.PodGroupInfos) && c.PodGroupInfos[k] == old(c.PodGroupInfos[k])
+//@ define skeletonFrame() bool = sessionsSame() && clustersSame() && handlerCellsSame() && nodeTablesSame() && jobTablesSame()
+//@ define solutionStartHooksSame() bool = (forall s *Session :: s.OnJobSolutionStartFns == old(s.OnJobSolutionStartFns)) && (forall h *api.OnJobSolutionStartFn :: *h == old(*h))
+//@ define pluginFrame() bool = stmtsSame() && countersSame()
+//@ define skelSame(ssn *Session) bool = ssn.ClusterInfo == old(ssn.ClusterInfo) && ssn.Cache == old(ssn.Cache) && ssn.eventHandlers == old(ssn.eventHandlers) && ssn.ClusterInfo.Nodes == old(ssn.ClusterInfo.Nodes) && ssn.ClusterInfo.PodGroupInfos == old(ssn.ClusterInfo.PodGroupInfos)
+
+// C04 "every pod the scheduler binds or nominates goes to a node that ... (all hard constraints)": the session
+// verdict is the conjunction of EVERY registered predicate (first error wins).
+//@ define predicatesOK(ssn *Session, task *pod_info.PodInfo, job *podgroup_info.PodGroupInfo, node *node_info.NodeInfo) bool = forall i int :: 0 <= i && i < len(ssn.PredicateFns) ==> api.predicateOK(ssn.PredicateFns[i], task, job, node)
+//@ func (*Session).PredicateFn
+//@   props C01 C03 C04
+//@   usestable []Operation Session.PredicateFns []api.PredicateFn Session.ClusterInfo Session.Cache Session.eventHandlers []*EventHandler ClusterInfo.PodGroupInfos ClusterInfo.Nodes map[common_info.PodGroupID]*podgroup_info.PodGroupInfo map[string]*node_info.NodeInfo
+//@   requires ssn != nil && task != nil
+//@   assume forall i int :: 0 <= i && i < len(ssn.PredicateFns) ==> ssn.PredicateFns[i] != nil
+//@   note assumed: no nil function is registered (AddPredicateFn is only called with method values of plugins)
+//@   modifies *
+//@   loop 1
+//@     modifies *
+//@     invariant 0 - 1 <= rangeindex && rangeindex < len(ssn.PredicateFns)
+//@     invariant ssn.PredicateFns == old(ssn.PredicateFns)
+//@     invariant forall i int :: 0 <= i && i <= rangeindex ==> api.predicateOK(old(ssn.PredicateFns[i]), task, job, node)
+//@     invariant pluginFrame()
+//@     invariant skelSame(ssn)
+//@     decreases len(ssn.PredicateFns) - rangeindex
+//@   ensures [allPredicates] result == nil ==> old(predicatesOK(ssn, task, job, node))
+//@   ensures [firstErrorWins] old(predicatesOK(ssn, task, job, node)) ==> result == nil
+//@   ensures [logsSame] logsSame()
+//@   ensures [virtual] noEmission() && reversals() == old(reversals()) && reverseFailures() == old(reverseFailures())
+//@   ensures [sessionKept] old(sessOK(ssn)) ==> sessionKept(ssn)
+//@ end
 
 //@ declare jobCapacityVerdict(ssn *Session, job *podgroup_info.PodGroupInfo) bool
 
+// C01/C05 "filters only prune hopeless cases" + C04/C08: the resource gate of FittingNode. The verdict is
+// node.IsTaskAllocatableOnReleasingOrIdle(task) on the entry state (node_info's contract says what it implies); a fit
+// error is produced only for a rejected task, and only when asked for.
+//@ define fitsRelOrIdleCpuMem(node *node_info.NodeInfo, task *pod_info.PodInfo) bool = task.ResReq.milliCpu <= node.Idle.milliCpu + node.Releasing.milliCpu && task.ResReq.memory <= node.Idle.memory + node.Releasing.memory
+//@ define wholeGpuReq(task *pod_info.PodInfo) bool = task.ResourceRequestType == "Regular" || task.ResourceRequestType == "MigInstance"
+//@ define fitsRelOrIdleGpus(node *node_info.NodeInfo, task *pod_info.PodInfo) bool = resource_info.reqGpus(task.ResReq.GpuResourceRequirement) + real(resource_info.draSum(task.ResReq.draGpuCounts)) <= node.Idle.gpus + node.Releasing.gpus
+//@ func (*Session).isTaskAllocatableOnNode
+//@   props C01 C04 C08
+//@   usestable []Operation Session.PredicateFns []api.PredicateFn Session.ClusterInfo Session.Cache Session.eventHandlers []*EventHandler ClusterInfo.PodGroupInfos ClusterInfo.Nodes map[common_info.PodGroupID]*podgroup_info.PodGroupInfo map[string]*node_info.NodeInfo
+//@   nopanic off
+//@   note nopanic off: task / node are dereferenced for the log line; with writeFittingDelta the body calls job.GetAllPodsMap() on the job looked up by FittingNode (nil if the task's job is not in the session; the only caller chain, common.allocateTask -> FittingNode, checks that before)
+//@   assume node_info.nodeReadable(node) && node_info.taskReadable(task)
+//@   note assumed (precondition of node_info's IsTaskAllocatableOnReleasingOrIdle / IsTaskAllocatable): the node's Idle / Releasing / Used vectors and the task's ResReq exist - snapshot invariants that the callers (`modifies *` steps in between) cannot carry
+//@   assume writeFittingDelta ==> podgroup_info.setsOK(job)
+//@   note assumed (precondition of GetAllPodsMap, only reached with writeFittingDelta): the job exists and no nil pod set is recorded on it - snapshot invariant; common.allocateTask returns before FittingNode when the job is unknown
+//@   modifies *
+//@   trust [fittingErrorFrame] stmtsSame() && countersSame()
+//@   note [fittingErrorFrame] trusted: node_info.(*NodeInfo).FittingError has no contract (message formatting over clones of the node's resource vectors, fmt + resource-list printing: outside the subset), so its call havocs the heap; assumed is only that it touches no statement and none of the emission / reversal counters. The session skeleton and the registration slices survive the call through `stable` declarations (checked by govc from FittingError's call graph)
+//@   ensures [cpuMemGate] result0 ==> old(fitsRelOrIdleCpuMem(node, task))
+//@   ensures [wholeGpuGate] result0 && old(wholeGpuReq(task)) ==> old(fitsRelOrIdleGpus(node, task))
+//@   ensures [errorOnlyIfRejected] result1 != nil ==> !result0 && writeFittingDelta
+//@   ensures [opCellsKept] opCellsKept()
+//@   ensures [skelSame] skelSame(ssn)
+//@   ensures [sessOKKept] old(sessOK(ssn)) ==> sessOK(ssn) && (forall k string :: (k in ssn.ClusterInfo.Nodes) == old(k in ssn.ClusterInfo.Nodes))
+//@   ensures [predicatesKept] ssn.PredicateFns == old(ssn.PredicateFns) && (forall i int :: 0 <= i && i < len(ssn.PredicateFns) ==> ssn.PredicateFns[i] == old(ssn.PredicateFns[i]))
+//@ end
+
+// C04 "every pod the scheduler binds or nominates goes to a node that ... (all hard constraints)" / C08 / C01 / C05:
+// a node fits iff the resource gate accepts the task AND every registered predicate does (the per-task capacity
+// callback is consulted by the predicates plugin's PredicateFn, i.e. inside predicatesOK, not by this body).
 //@ func (*Session).FittingNode
-//@   props C01 C03 C04
-//@   trusted
-//@   note assumed frame of the registered PredicateFns / capacity callbacks (function values); the verdict itself is not constrained here
+//@   props C01 C03 C04 C08
+//@   nopanic off
+//@   note nopanic off: task / node / ssn.ClusterInfo are dereferenced for log lines and look-ups; their non-nil-ness is the caller's matter (common.allocateTask is `nopanic off` too)
 //@   requires ssn != nil
 //@   modifies *
+//@   # the converse ("filters only prune hopeless cases"): nothing but the resource gate (the body's local `allocatable` = verdict of
+//@   # isTaskAllocatableOnNode) and the registered predicates can reject a node; a `lemma` because it names a local of the body
+//@   lemma [onlyPruneHopeless] result == (allocatable && old(predicatesOK(ssn, task, ssn.ClusterInfo.PodGroupInfos[task.Job], node)))
+//@   ensures [allPredicates] result ==> old(predicatesOK(ssn, task, ssn.ClusterInfo.PodGroupInfos[task.Job], node))
+//@   ensures [cpuMemGate] result ==> old(fitsRelOrIdleCpuMem(node, task))
+//@   ensures [wholeGpuGate] result && old(wholeGpuReq(task)) ==> old(fitsRelOrIdleGpus(node, task))
 //@   ensures [logsSame] logsSame()
 //@   ensures [virtual] noEmission() && reversals() == old(reversals()) && reverseFailures() == old(reverseFailures())
 //@   ensures [sessionKept] old(sessOK(ssn)) ==> sessionKept(ssn)
 //@ end
+//@ define prePredicatesOK(ssn *Session, task *pod_info.PodInfo, job *podgroup_info.PodGroupInfo) bool = forall i int :: 0 <= i && i < len(ssn.PrePredicateFns) ==> api.prePredicateOK(ssn.PrePredicateFns[i], task, job)
 //@ func (*Session).PrePredicateFn
 //@   props C01 C03 C04
-//@   trusted
-//@   note assumed frame of the registered PrePredicateFns (function values)
-//@   requires ssn != nil
+//@   usestable []Operation Session.PrePredicateFns []api.PrePredicateFn Session.ClusterInfo Session.Cache Session.eventHandlers []*EventHandler ClusterInfo.PodGroupInfos ClusterInfo.Nodes map[common_info.PodGroupID]*podgroup_info.PodGroupInfo map[string]*node_info.NodeInfo
+//@   requires ssn != nil && task != nil
+//@   assume forall i int :: 0 <= i && i < len(ssn.PrePredicateFns) ==> ssn.PrePredicateFns[i] != nil
+//@   note assumed: no nil function is registered (AddPrePredicateFn is only called with method values of plugins)
 //@   modifies *
+//@   loop 1
+//@     modifies *
+//@     invariant 0 - 1 <= rangeindex && rangeindex < len(ssn.PrePredicateFns)
+//@     invariant ssn.PrePredicateFns == old(ssn.PrePredicateFns)
+//@     invariant forall i int :: 0 <= i && i <= rangeindex ==> api.prePredicateOK(old(ssn.PrePredicateFns[i]), task, job)
+//@     invariant pluginFrame()
+//@     invariant skelSame(ssn)
+//@     decreases len(ssn.PrePredicateFns) - rangeindex
+//@   ensures [allPrePredicates] result == nil ==> old(prePredicatesOK(ssn, task, job))
+//@   ensures [firstErrorWins] old(prePredicatesOK(ssn, task, job)) ==> result == nil
 //@   ensures [logsSame] logsSame()
 //@   ensures [virtual] noEmission() && reversals() == old(reversals()) && reverseFailures() == old(reverseFailures())
 //@   ensures [sessionKept] old(sessOK(ssn)) ==> sessionKept(ssn)
 //@ end
+
+// every registered PreJobAllocationFn is called exactly once, in registration order (ghost call log of package api)
 //@ func (*Session).PreJobAllocation
 //@   props C01 C03 C04
-//@   trusted
-//@   note assumed frame of the registered PreJobAllocationFns (function values)
+//@   usestable []Operation Session.PreJobAllocationFns []api.PreJobAllocationFn Session.ClusterInfo Session.Cache Session.eventHandlers []*EventHandler ClusterInfo.PodGroupInfos ClusterInfo.Nodes map[common_info.PodGroupID]*podgroup_info.PodGroupInfo map[string]*node_info.NodeInfo
 //@   requires ssn != nil
+//@   assume forall i int :: 0 <= i && i < len(ssn.PreJobAllocationFns) ==> ssn.PreJobAllocationFns[i] != nil
+//@   note assumed: no nil function is registered
 //@   modifies *
+//@   loop 1
+//@     modifies *
+//@     invariant 0 - 1 <= rangeindex && rangeindex < len(ssn.PreJobAllocationFns)
+//@     invariant ssn.PreJobAllocationFns == old(ssn.PreJobAllocationFns)
+//@     invariant api.preJobAllocationCalls() == old(api.preJobAllocationCalls()) + rangeindex + 1
+//@     invariant forall i int :: 0 <= i && i <= rangeindex ==> api.preJobAllocationAt(old(api.preJobAllocationCalls()) + i + 1) == old(ssn.PreJobAllocationFns[i])
+//@     invariant pluginFrame()
+//@     invariant skelSame(ssn)
+//@     invariant old(podgroup_info.setsOK(job) && podgroup_info.allTasksOK(job)) ==> podgroup_info.setsOK(job) && podgroup_info.allTasksOK(job)
+//@     decreases len(ssn.PreJobAllocationFns) - rangeindex
+//@   ensures [eachOnce] api.preJobAllocationCalls() == old(api.preJobAllocationCalls()) + old(len(ssn.PreJobAllocationFns))
+//@   ensures [inOrder] forall i int :: 0 <= i && i < old(len(ssn.PreJobAllocationFns)) ==> api.preJobAllocationAt(old(api.preJobAllocationCalls()) + i + 1) == old(ssn.PreJobAllocationFns[i])
 //@   ensures [logsSame] logsSame()
 //@   ensures [virtual] noEmission() && reversals() == old(reversals()) && reverseFailures() == old(reverseFailures())
 //@   ensures [sessionKept] old(sessOK(ssn)) ==> sessionKept(ssn)
 //@   ensures [jobKept] old(podgroup_info.setsOK(job) && podgroup_info.allTasksOK(job)) ==> podgroup_info.setsOK(job) && podgroup_info.allTasksOK(job)
-//@   note [jobKept] assumed: the registered PreJobAllocationFns (topology) do not touch the job's pod sets / tasks
+//@   note [jobKept] rests on the assumption in type:PreJobAllocationFn (the registered functions - topology - do not touch the job's pod sets / tasks)
 //@ end
+
+// C08 "no decision raises ... above its configured limit": the job-level capacity gate. The body consults the FIRST
+// registered function only (`for ... { return fn(...) }`); with no function registered every job is schedulable.
+//@ define firstJobCapacityOK(ssn *Session, job *podgroup_info.PodGroupInfo) bool = len(ssn.IsJobOverCapacityFns) == 0 || api.jobCapacityOK(ssn.IsJobOverCapacityFns[0], job)
+//@ define allJobCapacityOK(ssn *Session, job *podgroup_info.PodGroupInfo) bool = forall i int :: 0 <= i && i < len(ssn.IsJobOverCapacityFns) ==> api.jobCapacityOK(ssn.IsJobOverCapacityFns[i], job)
 //@ func (*Session).IsJobOverQueueCapacityFn
-//@   props C01 C03 C04
-//@   trusted
-//@   note assumed frame of the registered IsJobOverCapacityFns (function values); every registered function (proportion) returns a non-nil result, as does the fallback
+//@   props C01 C03 C04 C08
+//@   usestable []Operation Session.ClusterInfo Session.Cache Session.eventHandlers []*EventHandler ClusterInfo.PodGroupInfos ClusterInfo.Nodes map[common_info.PodGroupID]*podgroup_info.PodGroupInfo map[string]*node_info.NodeInfo
 //@   requires ssn != nil
+//@   assume forall i int :: 0 <= i && i < len(ssn.IsJobOverCapacityFns) ==> ssn.IsJobOverCapacityFns[i] != nil
+//@   note assumed: no nil function is registered
+//@   assume jobCapacityVerdict(ssn, job) == firstJobCapacityOK(ssn, job)
+//@   note jobCapacityVerdict(ssn, job) stays a declared NAME for the verdict of this call, tied to the per-callback verdicts by the `assume` above (a definition of the name at the entry state). It cannot be a `define` over ssn.IsJobOverCapacityFns: the callers under contract (common.AllocateJob, allocate.attemptToAllocateJob) state their capacity gate in their post-state, after `modifies *` steps, and do not opt into `stable Session.IsJobOverCapacityFns`, so a define would be evaluated on a havocked registration slice there. The name equates the verdicts of two calls for the same (ssn, job), which is only meaningful while the queue/job state is unchanged between them - the callers under contract call it once
 //@   modifies *
+//@   hint [skelSame] skelSame(ssn)
+//@   ensures [firstDecides] result.IsSchedulable == old(firstJobCapacityOK(ssn, job))
+//@   ensures [allRegisteredIfSingle] old(len(ssn.IsJobOverCapacityFns)) <= 1 ==> (result.IsSchedulable <==> old(allJobCapacityOK(ssn, job)))
 //@   ensures [logsSame] logsSame()
 //@   ensures [virtual] noEmission() && reversals() == old(reversals()) && reverseFailures() == old(reverseFailures())
 //@   ensures [sessionKept] old(sessOK(ssn)) ==> sessionKept(ssn)
 //@   ensures [resultNonNil] result != nil
 //@   ensures [verdictNamed] result.IsSchedulable == jobCapacityVerdict(ssn, job)
-//@   note jobCapacityVerdict(ssn, job) is a naming device for the callback's verdict at this call (so that a caller can refer to it after later havocs); it equates the verdicts of two calls for the same (ssn, job), which is only meaningful while the queue/job state is unchanged between them - the callers under contract (common.AllocateJob) call it once
 //@ end
+
+//@ define firstQuotaOK(ssn *Session, job *podgroup_info.PodGroupInfo) bool = len(ssn.IsNonPreemptibleJobOverQueueQuotaFns) == 0 || api.jobCapacityOK(ssn.IsNonPreemptibleJobOverQueueQuotaFns[0], job)
+//@ define allQuotaOK(ssn *Session, job *podgroup_info.PodGroupInfo) bool = forall i int :: 0 <= i && i < len(ssn.IsNonPreemptibleJobOverQueueQuotaFns) ==> api.jobCapacityOK(ssn.IsNonPreemptibleJobOverQueueQuotaFns[i], job)
+//@ func (*Session).IsNonPreemptibleJobOverQueueQuotaFn
+//@   props C08 C06
+//@   usestable []Operation Session.ClusterInfo Session.Cache Session.eventHandlers []*EventHandler ClusterInfo.PodGroupInfos ClusterInfo.Nodes map[common_info.PodGroupID]*podgroup_info.PodGroupInfo map[string]*node_info.NodeInfo
+//@   requires ssn != nil
+//@   assume forall i int :: 0 <= i && i < len(ssn.IsNonPreemptibleJobOverQueueQuotaFns) ==> ssn.IsNonPreemptibleJobOverQueueQuotaFns[i] != nil
+//@   note assumed: no nil function is registered
+//@   modifies *
+//@   hint [skelSame] skelSame(ssn)
+//@   ensures [firstDecides] result.IsSchedulable == old(firstQuotaOK(ssn, job))
+//@   ensures [allRegisteredIfSingle] old(len(ssn.IsNonPreemptibleJobOverQueueQuotaFns)) <= 1 ==> (result.IsSchedulable <==> old(allQuotaOK(ssn, job)))
+//@   ensures [logsSame] logsSame()
+//@   ensures [virtual] noEmission() && reversals() == old(reversals()) && reverseFailures() == old(reverseFailures())
+//@   ensures [sessionKept] old(sessOK(ssn)) ==> sessionKept(ssn)
+//@   ensures [resultNonNil] result != nil
+//@ end
+
+//@ define firstTaskCapacityOK(ssn *Session, task *pod_info.PodInfo, job *podgroup_info.PodGroupInfo, node *node_info.NodeInfo) bool = len(ssn.IsTaskAllocationOnNodeOverCapacityFns) == 0 || api.taskCapacityOK(ssn.IsTaskAllocationOnNodeOverCapacityFns[0], task, job, node)
+//@ define allTaskCapacityOK(ssn *Session, task *pod_info.PodInfo, job *podgroup_info.PodGroupInfo, node *node_info.NodeInfo) bool = forall i int :: 0 <= i && i < len(ssn.IsTaskAllocationOnNodeOverCapacityFns) ==> api.taskCapacityOK(ssn.IsTaskAllocationOnNodeOverCapacityFns[i], task, job, node)
+//@ func (*Session).IsTaskAllocationOnNodeOverCapacityFn
+//@   props C08 C04
+//@   usestable []Operation Session.ClusterInfo Session.Cache Session.eventHandlers []*EventHandler ClusterInfo.PodGroupInfos ClusterInfo.Nodes map[common_info.PodGroupID]*podgroup_info.PodGroupInfo map[string]*node_info.NodeInfo
+//@   requires ssn != nil
+//@   assume forall i int :: 0 <= i && i < len(ssn.IsTaskAllocationOnNodeOverCapacityFns) ==> ssn.IsTaskAllocationOnNodeOverCapacityFns[i] != nil
+//@   note assumed: no nil function is registered
+//@   modifies *
+//@   hint [skelSame] skelSame(ssn)
+//@   ensures [firstDecides] result.IsSchedulable == old(firstTaskCapacityOK(ssn, task, job, node))
+//@   ensures [allRegisteredIfSingle] old(len(ssn.IsTaskAllocationOnNodeOverCapacityFns)) <= 1 ==> (result.IsSchedulable <==> old(allTaskCapacityOK(ssn, task, job, node)))
+//@   ensures [logsSame] logsSame()
+//@   ensures [virtual] noEmission() && reversals() == old(reversals()) && reverseFailures() == old(reverseFailures())
+//@   ensures [sessionKept] old(sessOK(ssn)) ==> sessionKept(ssn)
+//@   ensures [resultNonNil] result != nil
+//@ end
+
+// C05/C06: "can the reclaimer get more resources": the first registered function decides, false if none
+//@ func (*Session).CanReclaimResources
+//@   props C05 C06
+//@   usestable []Operation Session.ClusterInfo Session.Cache Session.eventHandlers []*EventHandler ClusterInfo.PodGroupInfos ClusterInfo.Nodes map[common_info.PodGroupID]*podgroup_info.PodGroupInfo map[string]*node_info.NodeInfo
+//@   requires ssn != nil
+//@   assume forall i int :: 0 <= i && i < len(ssn.CanReclaimResourcesFns) ==> ssn.CanReclaimResourcesFns[i] != nil
+//@   note assumed: no nil function is registered
+//@   modifies *
+//@   hint [skelSame] skelSame(ssn)
+//@   ensures [firstDecides] result == old(len(ssn.CanReclaimResourcesFns) > 0 && api.canReclaim(ssn.CanReclaimResourcesFns[0], reclaimer))
+//@   ensures [logsSame] logsSame()
+//@   ensures [virtual] noEmission() && reversals() == old(reversals()) && reverseFailures() == old(reverseFailures())
+//@   ensures [sessionKept] old(sessOK(ssn)) ==> sessionKept(ssn)
+//@ end
+
+// queue resource getters: the first registered function decides, nil if none
+//@ func (*Session).QueueDeservedResources
+//@   props C05 C07
+//@   usestable []Operation Session.ClusterInfo Session.Cache Session.eventHandlers []*EventHandler ClusterInfo.PodGroupInfos ClusterInfo.Nodes map[common_info.PodGroupID]*podgroup_info.PodGroupInfo map[string]*node_info.NodeInfo
+//@   requires ssn != nil
+//@   assume forall i int :: 0 <= i && i < len(ssn.GetQueueDeservedResourcesFns) ==> ssn.GetQueueDeservedResourcesFns[i] != nil
+//@   note assumed: no nil function is registered
+//@   modifies *
+//@   hint [skelSame] skelSame(ssn)
+//@   ensures [firstDecides] result == old(ite(len(ssn.GetQueueDeservedResourcesFns) > 0, api.queueResourceOf(ssn.GetQueueDeservedResourcesFns[0], queue), nil))
+//@   ensures [logsSame] logsSame()
+//@   ensures [virtual] noEmission() && reversals() == old(reversals()) && reverseFailures() == old(reverseFailures())
+//@   ensures [sessionKept] old(sessOK(ssn)) ==> sessionKept(ssn)
+//@ end
+//@ func (*Session).QueueFairShare
+//@   props C05 C07
+//@   usestable []Operation Session.ClusterInfo Session.Cache Session.eventHandlers []*EventHandler ClusterInfo.PodGroupInfos ClusterInfo.Nodes map[common_info.PodGroupID]*podgroup_info.PodGroupInfo map[string]*node_info.NodeInfo
+//@   requires ssn != nil
+//@   assume forall i int :: 0 <= i && i < len(ssn.GetQueueFairShareFns) ==> ssn.GetQueueFairShareFns[i] != nil
+//@   note assumed: no nil function is registered
+//@   modifies *
+//@   hint [skelSame] skelSame(ssn)
+//@   ensures [firstDecides] result == old(ite(len(ssn.GetQueueFairShareFns) > 0, api.queueResourceOf(ssn.GetQueueFairShareFns[0], queue), nil))
+//@   ensures [logsSame] logsSame()
+//@   ensures [virtual] noEmission() && reversals() == old(reversals()) && reverseFailures() == old(reverseFailures())
+//@   ensures [sessionKept] old(sessOK(ssn)) ==> sessionKept(ssn)
+//@ end
+//@ func (*Session).QueueAllocatedResources
+//@   props C05 C07
+//@   usestable []Operation Session.ClusterInfo Session.Cache Session.eventHandlers []*EventHandler ClusterInfo.PodGroupInfos ClusterInfo.Nodes map[common_info.PodGroupID]*podgroup_info.PodGroupInfo map[string]*node_info.NodeInfo
+//@   requires ssn != nil
+//@   assume forall i int :: 0 <= i && i < len(ssn.GetQueueAllocatedResourcesFns) ==> ssn.GetQueueAllocatedResourcesFns[i] != nil
+//@   note assumed: no nil function is registered
+//@   modifies *
+//@   hint [skelSame] skelSame(ssn)
+//@   ensures [firstDecides] result == old(ite(len(ssn.GetQueueAllocatedResourcesFns) > 0, api.queueResourceOf(ssn.GetQueueAllocatedResourcesFns[0], queue), nil))
+//@   ensures [logsSame] logsSame()
+//@   ensures [virtual] noEmission() && reversals() == old(reversals()) && reverseFailures() == old(reverseFailures())
+//@   ensures [sessionKept] old(sessOK(ssn)) ==> sessionKept(ssn)
+//@ end
+
+// C07: the validation snapshot of the registered job-solution-start hooks (proportion copies the live queue
+// usage) is FRESH: the hooks ran after the last decision was emitted to the cache (vacuous without hooks)
+//@ define snapshotFresh(ssn *Session) bool = len(ssn.OnJobSolutionStartFns) > 0 ==> api.snapshotStamp() == emitted()
+// every registered OnJobSolutionStartFn is called exactly once, in registration order (ghost call log of package api)
+//@ func (*Session).OnJobSolutionStart
+//@   props C05 C06 C07
+//@   usestable []Operation
+//@   requires ssn != nil
+//@   assume forall i int :: 0 <= i && i < len(ssn.OnJobSolutionStartFns) ==> ssn.OnJobSolutionStartFns[i] != nil
+//@   note assumed: no nil function is registered
+//@   modifies *
+//@   loop 1
+//@     modifies *
+//@     invariant 0 - 1 <= rangeindex && rangeindex < len(ssn.OnJobSolutionStartFns)
+//@     invariant ssn.OnJobSolutionStartFns == old(ssn.OnJobSolutionStartFns)
+//@     invariant api.jobSolutionStartCalls() == old(api.jobSolutionStartCalls()) + rangeindex + 1
+//@     invariant forall i int :: 0 <= i && i <= rangeindex ==> api.jobSolutionStartAt(old(api.jobSolutionStartCalls()) + i + 1) == old(ssn.OnJobSolutionStartFns[i])
+//@     invariant pluginFrame() && skeletonFrame() && solutionStartHooksSame()
+//@     invariant rangeindex >= 0 ==> api.snapshotStamp() == emitted()
+//@     decreases len(ssn.OnJobSolutionStartFns) - rangeindex
+//@   ensures [eachOnce] api.jobSolutionStartCalls() == old(api.jobSolutionStartCalls()) + old(len(ssn.OnJobSolutionStartFns))
+//@   ensures [inOrder] forall i int :: 0 <= i && i < old(len(ssn.OnJobSolutionStartFns)) ==> api.jobSolutionStartAt(old(api.jobSolutionStartCalls()) + i + 1) == old(ssn.OnJobSolutionStartFns[i])
+//@   ensures [snapshotStamped] old(len(ssn.OnJobSolutionStartFns)) > 0 ==> api.snapshotStamp() == emitted()
+//@   ensures [hooksKept] ssn.OnJobSolutionStartFns == old(ssn.OnJobSolutionStartFns)
+//@   ensures [logsSame] logsSame()
+//@   ensures [virtual] noEmission() && reversals() == old(reversals()) && reverseFailures() == old(reverseFailures())
+//@   ensures [sessionKept] old(sessOK(ssn)) ==> sessionKept(ssn)
+//@ end
+
+// ---- scoring dispatch -----------------------------------------------------------------------------------------
+// GPU score of one GPU group: the sum of every registered function's score; the first failing function aborts (0, err).
+//@ define noGpuScoreFails(ssn *Session, task *pod_info.PodInfo, node *node_info.NodeInfo, gpuIdx string) bool = forall i int :: 0 <= i && i < len(ssn.GpuOrderFns) ==> !api.gpuScoreFails(ssn.GpuOrderFns[i], task, node, gpuIdx)
+//@ func (*Session).GpuOrderFn
+//@   props C02
+//@   requires ssn != nil
+//@   assume forall i int :: 0 <= i && i < len(ssn.GpuOrderFns) ==> ssn.GpuOrderFns[i] != nil
+//@   note assumed: no nil function is registered
+//@   pure
+//@   loop 1
+//@     invariant 0 - 1 <= rangeindex && rangeindex < len(ssn.GpuOrderFns)
+//@     invariant forall i int :: 0 <= i && i <= rangeindex ==> !api.gpuScoreFails(ssn.GpuOrderFns[i], task, node, gpuIdx)
+//@     invariant score == (sum i in range(0, rangeindex + 1) :: api.gpuScore(ssn.GpuOrderFns[i], task, node, gpuIdx))
+//@     decreases len(ssn.GpuOrderFns) - rangeindex
+//@   ensures [okIffNoneFails] (result1 == nil) == noGpuScoreFails(ssn, task, node, gpuIdx)
+//@   ensures [scoreIsSum] result1 == nil ==> result0 == (sum i in range(0, len(ssn.GpuOrderFns)) :: api.gpuScore(ssn.GpuOrderFns[i], task, node, gpuIdx))
+//@   ensures [errorScoreZero] result1 != nil ==> result0 == 0.0
+//@ end
+
+// node score: the sum of every registered function's score; the first failing function aborts (0, err)
+//@ define noNodeScoreFails(ssn *Session, task *pod_info.PodInfo, node *node_info.NodeInfo) bool = forall i int :: 0 <= i && i < len(ssn.NodeOrderFns) ==> !api.nodeScoreFails(ssn.NodeOrderFns[i], task, node)
+//@ func (*Session).NodeOrderFn
+//@   props C04
+//@   usestable []Operation Session.NodeOrderFns []api.NodeOrderFn Session.ClusterInfo Session.Cache Session.eventHandlers []*EventHandler ClusterInfo.PodGroupInfos ClusterInfo.Nodes map[common_info.PodGroupID]*podgroup_info.PodGroupInfo map[string]*node_info.NodeInfo
+//@   requires ssn != nil
+//@   assume forall i int :: 0 <= i && i < len(ssn.NodeOrderFns) ==> ssn.NodeOrderFns[i] != nil
+//@   note assumed: no nil function is registered
+//@   modifies *
+//@   loop 1
+//@     modifies *
+//@     invariant 0 - 1 <= rangeindex && rangeindex < len(ssn.NodeOrderFns)
+//@     invariant ssn.NodeOrderFns == old(ssn.NodeOrderFns)
+//@     invariant forall i int :: 0 <= i && i <= rangeindex ==> !api.nodeScoreFails(old(ssn.NodeOrderFns[i]), task, node)
+//@     invariant priorityScore == (sum i in range(0, rangeindex + 1) :: api.nodeScore(old(ssn.NodeOrderFns[i]), task, node))
+//@     invariant pluginFrame()
+//@     invariant skelSame(ssn)
+//@     decreases len(ssn.NodeOrderFns) - rangeindex
+//@   ensures [okOnlyIfNoneFails] result1 == nil ==> old(noNodeScoreFails(ssn, task, node))
+//@   ensures [firstErrorWins] old(noNodeScoreFails(ssn, task, node)) ==> result1 == nil
+//@   ensures [scoreIsSum] result1 == nil ==> result0 == (sum i in range(0, old(len(ssn.NodeOrderFns))) :: api.nodeScore(old(ssn.NodeOrderFns[i]), task, node))
+//@   ensures [errorScoreZero] result1 != nil ==> result0 == 0.0
+//@   ensures [logsSame] logsSame()
+//@   ensures [virtual] noEmission() && reversals() == old(reversals()) && reverseFailures() == old(reverseFailures())
+//@   ensures [sessionKept] old(sessOK(ssn)) ==> sessionKept(ssn)
+//@ end
+
+// pre-ordering hooks: every registered function runs (errors are only logged); the node list is not rewritten
+//@ func (*Session).NodePreOrderFn
+//@   props C04
+//@   usestable []Operation Session.NodePreOrderFns []api.NodePreOrderFn Session.ClusterInfo Session.Cache Session.eventHandlers []*EventHandler ClusterInfo.PodGroupInfos ClusterInfo.Nodes map[common_info.PodGroupID]*podgroup_info.PodGroupInfo map[string]*node_info.NodeInfo
+//@   requires ssn != nil
+//@   assume forall i int :: 0 <= i && i < len(ssn.NodePreOrderFns) ==> ssn.NodePreOrderFns[i] != nil
+//@   note assumed: no nil function is registered
+//@   nopanic off
+//@   note nopanic off: task.Name is read for the error log line only (a nil task is the caller's matter)
+//@   modifies *
+//@   loop 1
+//@     modifies *
+//@     invariant 0 - 1 <= rangeindex && rangeindex < len(ssn.NodePreOrderFns)
+//@     invariant ssn.NodePreOrderFns == old(ssn.NodePreOrderFns)
+//@     invariant forall j int :: 0 <= j && j < len(fittingNodes) ==> fittingNodes[j] == old(fittingNodes[j])
+//@     invariant pluginFrame()
+//@     invariant skelSame(ssn)
+//@     decreases len(ssn.NodePreOrderFns) - rangeindex
+//@   ensures [inputKept] forall j int :: 0 <= j && j < len(fittingNodes) ==> fittingNodes[j] == old(fittingNodes[j])
+//@   ensures [logsSame] logsSame()
+//@   ensures [virtual] noEmission() && reversals() == old(reversals()) && reverseFailures() == old(reverseFailures())
+//@   ensures [sessionKept] old(sessOK(ssn)) ==> sessionKept(ssn)
+//@ end
+
+// ---- pod-set / sub-group-set comparators (as JobOrderFn / TaskOrderFn above): the first registered comparator that
+// is not neutral decides; the fallback orders by name.
+//@ define psOf(x interface{}) *subgroup_info.PodSet = unbox(x, "*subgroup_info.PodSet")
+//@ define isPS(x interface{}) bool = typeis(x, "*subgroup_info.PodSet") && psOf(x) != nil
+//@ define psCmp(ssn *Session, i int, l interface{}, r interface{}) int = common_info.cmpVerdict(ssn.PodSetOrderFns[i], l, r)
+//@ define psNeutral(ssn *Session, l interface{}, r interface{}) bool = forall i int :: 0 <= i && i < len(ssn.PodSetOrderFns) ==> psCmp(ssn, i, l, r) == 0
+//@ define psDecider(ssn *Session, k int, l interface{}, r interface{}) bool = 0 <= k && k < len(ssn.PodSetOrderFns) && psCmp(ssn, k, l, r) != 0 && (forall i int :: 0 <= i && i < k ==> psCmp(ssn, i, l, r) == 0)
 //@ func (*Session).PodSetOrderFn
 //@   props C01 C03 C04
-//@   trusted
-//@   note assumed read-only: runs the registered PodSetOrderFns comparators (function values); the order itself is not constrained here
 //@   requires ssn != nil
+//@   assume isPS(l) && isPS(r)
+//@   note assumed: the comparator is only handed pod sets (priority queues of *subgroup_info.PodSet built in podgroup_info / actions/common)
+//@   assume forall i int :: 0 <= i && i < len(ssn.PodSetOrderFns) ==> ssn.PodSetOrderFns[i] != nil
+//@   note assumed: no nil function is registered
 //@   pure
+//@   loop 1
+//@     invariant 0 - 1 <= rangeindex && rangeindex < len(ssn.PodSetOrderFns)
+//@     invariant forall i int :: 0 <= i && i <= rangeindex ==> psCmp(ssn, i, l, r) == 0
+//@     decreases len(ssn.PodSetOrderFns) - rangeindex
+//@   ensures [nameFallback] psNeutral(ssn, l, r) ==> result == (psOf(l).name < psOf(r).name)
+//@   ensures [firstPluginDecides] forall k int :: psDecider(ssn, k, l, r) ==> result == (psCmp(ssn, k, l, r) < 0)
 //@ end
+
+//@ define sgsOf(x interface{}) *subgroup_info.SubGroupSet = unbox(x, "*subgroup_info.SubGroupSet")
+//@ define isSGS(x interface{}) bool = typeis(x, "*subgroup_info.SubGroupSet") && sgsOf(x) != nil
+//@ define sgsCmp(ssn *Session, i int, l interface{}, r interface{}) int = common_info.cmpVerdict(ssn.SubGroupSetOrderFns[i], l, r)
+//@ define sgsNeutral(ssn *Session, l interface{}, r interface{}) bool = forall i int :: 0 <= i && i < len(ssn.SubGroupSetOrderFns) ==> sgsCmp(ssn, i, l, r) == 0
+//@ define sgsDecider(ssn *Session, k int, l interface{}, r interface{}) bool = 0 <= k && k < len(ssn.SubGroupSetOrderFns) && sgsCmp(ssn, k, l, r) != 0 && (forall i int :: 0 <= i && i < k ==> sgsCmp(ssn, i, l, r) == 0)
 //@ func (*Session).SubGroupSetOrderFn
 //@   props C01 C03 C04
-//@   trusted
-//@   note assumed read-only: runs the registered SubGroupSetOrderFns comparators (function values); the order itself is not constrained here
 //@   requires ssn != nil
+//@   assume isSGS(l) && isSGS(r)
+//@   note assumed: the comparator is only handed sub-group sets
+//@   assume forall i int :: 0 <= i && i < len(ssn.SubGroupSetOrderFns) ==> ssn.SubGroupSetOrderFns[i] != nil
+//@   note assumed: no nil function is registered
 //@   pure
+//@   loop 1
+//@     invariant 0 - 1 <= rangeindex && rangeindex < len(ssn.SubGroupSetOrderFns)
+//@     invariant forall i int :: 0 <= i && i <= rangeindex ==> sgsCmp(ssn, i, l, r) == 0
+//@     decreases len(ssn.SubGroupSetOrderFns) - rangeindex
+//@   ensures [nameFallback] sgsNeutral(ssn, l, r) ==> result == (sgsOf(l).name < sgsOf(r).name)
+//@   ensures [firstPluginDecides] forall k int :: sgsDecider(ssn, k, l, r) ==> result == (sgsCmp(ssn, k, l, r) < 0)
+//@ end
+
+// ---- GPU ranking of one node (C02): FittingGPUs = filter (fits the GPU group / a whole GPU is idle or releasing),
+// score every candidate through GpuOrderFn, order by score. Verified: read-only (`pure`), every listed shared GPU group
+// passed node.IsTaskFitOnGpuGroup; the order itself (sort.Sort on the score keys) is library code.
+//@ func sortGPUs
+//@   props C02
+//@   trusted
+//@   note sort.Sort(sort.Reverse(sort.Float64Slice(..))) over the score keys: library sort through interfaces, outside the subset; assumed read-only (it sorts a slice it allocated itself); the order is not constrained
+//@   pure
+//@ end
+//@ func filterGpusByEnoughResources
+//@   props C02
+//@   requires node != nil && pod != nil
+//@   assume pod.ResReq != nil && node.Idle != nil && node.Releasing != nil
+//@   note assumed: the task's ResReq and the node's Idle / Releasing vectors exist (snapshot invariants, node_info.nodeReadable / taskReadable)
+//@   pure
+//@   loop 1
+//@     invariant forall i int :: 0 <= i && i < len(filteredGPUs) ==> node_info.fitsGpuGroup(node, pod.ResReq, filteredGPUs[i])
+//@   loop 2
+//@     invariant forall i int :: 0 <= i && i < len(filteredGPUs) && filteredGPUs[i] != pod_info.WholeGpuIndicator ==> node_info.fitsGpuGroup(node, pod.ResReq, filteredGPUs[i])
+//@   ensures [sharedGroupsFit] forall i int :: 0 <= i && i < len(result) && result[i] != pod_info.WholeGpuIndicator ==> node_info.fitsGpuGroup(node, pod.ResReq, result[i])
+//@ end
+//@ func (*Session).sortGPUs
+//@   props C02
+//@   requires ssn != nil
+//@   nopanic off
+//@   note nopanic off: node.Name is read for an error log line only
+//@   pure
+//@   loop 1
+//@     invariant 0 - 1 <= rangeindex && rangeindex < len(filteredGPUs)
+//@     decreases len(filteredGPUs) - rangeindex
 //@ end
 //@ func (*Session).FittingGPUs
 //@   props C01 C02
-//@   trusted
-//@   note assumed read-only: ranks the node's GPU groups through the registered GpuOrderFn plugin callbacks (function values, outside the subset); the returned list is not constrained
 //@   requires ssn != nil && node != nil && pod != nil
 //@   pure
 //@ end
@@ -954,7 +1445,7 @@ package framework
 //@ func (*Session).OrderedNodesByTask
 //@   props C01 C03 C04
 //@   trusted
-//@   note goroutines + sync (outside the subset); assumed frame of the NodePreOrderFns / NodeOrderFns callbacks, and that the result only contains nodes of the input slice (the body appends input nodes to score buckets and concatenates the buckets)
+//@   note goroutines + sync.WaitGroup / Mutex + sort (outside the subset: a `go` statement havocs the heap in the engine, so no clause could be proved against the body; the whole function stays trusted). The goroutine-free parts ARE verified separately: (*Session).NodePreOrderFn (every pre-order hook runs, node list kept) and (*Session).NodeOrderFn (sum of the registered scores, first error wins), both with the plugin frame. Assumed here: that frame for the concurrent calls, and that the result only contains nodes of the input slice (the body appends input nodes to score buckets and concatenates the buckets)
 //@   requires ssn != nil
 //@   modifies *
 //@   ensures [logsSame] logsSame()
@@ -963,16 +1454,95 @@ package framework
 //@   ensures [onlyInputNodes] forall i int :: 0 <= i && i < len(result) ==> result[i] != nil && (exists j int :: 0 <= j && j < len(nodes) && nodes[j] == result[i])
 //@   ensures [inputKept] forall j int :: 0 <= j && j < len(nodes) ==> nodes[j] == old(nodes[j])
 //@ end
+// log line only: builds name lists in fresh slices
+//@ func logNodeSetsPluginResult
+//@   props C04
+//@   nopanic off
+//@   note nopanic off: node.Name / podGroup.Namespace are read for a log line (nil entries are the caller's matter)
+//@   pure
+//@   loop 1
+//@     invariant true
+//@   loop 2
+//@     invariant true
+//@ end
+
+// C04 "only nodes of the candidate set". [subsetsOfParent] is a `trust` clause: the loop structure, the frame and the
+// boundary cases ARE verified, the nested subset property is not. (It was proved once from a type-level assumption
+// "a subset function maps node sets whose nodes satisfy an uninterpreted predicate to sets whose nodes do" with the
+// invariants subsetsOK(nodeSets) / subsetsOK(newNodeSets), subsetsOK(S) = forall q :: incells(q, S) ==> forall j :: candNode((*q)[j]),
+// 34/34 obligations; but the preservation step across `newNodeSets = append(newNodeSets, nodeSubsets...)` - a slice of
+// slices, case split at len(newNodeSets), inner cells behind two `modifies *` havocs - needs a quantifier instance at
+// sk - len(s) that the solvers find only for some seeds / instantiation budgets (0.5 s .. timeout). Too fragile to claim.)
 //@ func (*Session).SubsetNodesFn
 //@   props C01 C03 C04
-//@   trusted
-//@   note assumed frame of the registered SubsetNodesFns (function values), and ASSUMED (not proved here) that every registered subset function (topology plugin) returns subsets of the node set it is given; with no function registered the result is the input set itself
+//@   usestable []Operation Session.SubsetNodesFns []api.SubsetNodesFn []node_info.NodeSet Session.ClusterInfo Session.Cache Session.eventHandlers []*EventHandler ClusterInfo.PodGroupInfos ClusterInfo.Nodes map[common_info.PodGroupID]*podgroup_info.PodGroupInfo map[string]*node_info.NodeInfo
+//@   nopanic off
+//@   note nopanic off: podGroup.Namespace is read for log lines only (a nil podGroup is the caller's matter)
 //@   requires ssn != nil
+//@   requires [podSetsCoverSubGroup] subgroup_info.podSetsCover(subGroupInfo.parent, subGroupInfo.name, podSets)
+//@   requires [podSetsOnlyOfSubGroup] subgroup_info.podSetsOnly(subGroupInfo.parent, subGroupInfo.name, podSets)
+//@   assume forall i int :: 0 <= i && i < len(ssn.SubsetNodesFns) ==> ssn.SubsetNodesFns[i] != nil
+//@   note assumed: no nil function is registered
 //@   modifies *
+//@   loop 1
+//@     modifies *
+//@     invariant 0 - 1 <= rangeindex && rangeindex < len(ssn.SubsetNodesFns)
+//@     invariant ssn.SubsetNodesFns == old(ssn.SubsetNodesFns)
+//@     invariant rangeindex == 0 - 1 ==> len(nodeSets) == 1 && nodeSets[0] == initNodeSet
+//@     invariant pluginFrame()
+//@     invariant skelSame(ssn)
+//@     decreases len(ssn.SubsetNodesFns) - rangeindex
+//@   loop 2
+//@     modifies *
+//@     invariant 0 - 1 <= rangeindex && rangeindex < len(nodeSets)
+//@     invariant ssn.SubsetNodesFns == old(ssn.SubsetNodesFns)
+//@     invariant pluginFrame()
+//@     invariant skelSame(ssn)
+//@     decreases len(nodeSets) - rangeindex
 //@   ensures [logsSame] logsSame()
 //@   ensures [virtual] noEmission() && reversals() == old(reversals()) && reverseFailures() == old(reverseFailures())
 //@   ensures [sessionKept] old(sessOK(ssn)) ==> sessionKept(ssn)
-//@   ensures [subsetsOfParent] result1 == nil ==> forall a int, i int :: 0 <= a && a < len(result0) && 0 <= i && i < len(result0[a]) ==> result0[a][i] != nil && (exists j int :: 0 <= j && j < len(initNodeSet) && initNodeSet[j] == result0[a][i])
+//@   trust [subsetsOfParent] result1 == nil ==> forall a int, i int :: 0 <= a && a < len(result0) && 0 <= i && i < len(result0[a]) ==> result0[a][i] != nil && (exists j int :: 0 <= j && j < len(initNodeSet) && initNodeSet[j] == result0[a][i])
+//@   note [subsetsOfParent] trusted (it was assumed by the whole-function `trusted` contract this block replaces): ASSUMED that every registered subset function (topology plugin) returns non-nil nodes of the node set it is given and that the candidate set holds no nil node; the wrapper applies each level to the previous level's subsets and concatenates, so the result sets are subsets of initNodeSet. Not proved: see the comment above the block
+//@   ensures [noSubsetFnIsIdentity] old(len(ssn.SubsetNodesFns)) == 0 ==> result1 == nil && len(result0) == 1 && result0[0] == initNodeSet
+//@   ensures [errorMeansNoSets] result1 != nil ==> len(result0) == 0
+//@ end
+
+// ---- session.go: the two look-up helpers of BindPod / Evict / commitEvict -------------------------------------------
+// updatePodOnSession (job look-up + PodGroupInfo.UpdateTaskStatus) and updatePodOnNode (node look-up +
+// NodeInfo.UpdateTask) are loop-free; they are executed INSIDE their callers' units ((*Session).BindPod,
+// (*Statement).commitEvict - verified above - and Session.Evict), so their bodies are covered by those proofs with the
+// full C14 contracts of UpdateTaskStatus / UpdateTask. A standalone summary would only replace that by something weaker.
+//@ func (*Session).updatePodOnSession
+//@   props C13 C01
+//@   inline
+//@ end
+//@ func (*Session).updatePodOnNode
+//@   props C13 C06
+//@   inline
+//@ end
+
+// ---- session.go: configuration getters ------------------------------------------------------------------------
+// C10/C16 "jobs depth": the per-action queue depth, infinite (-1) when the action has no entry
+//@ func (*Session).GetJobsDepth
+//@   props C10 C16 C05
+//@   requires ssn != nil && ssn.Config != nil
+//@   pure
+//@   ensures [configured] string(action) in ssn.Config.QueueDepthPerAction ==> result == ssn.Config.QueueDepthPerAction[string(action)]
+//@   ensures [infiniteByDefault] !(string(action) in ssn.Config.QueueDepthPerAction) ==> result == 0 - 1
+//@ end
+
+// number of leaf queues (queues without children) of the snapshot; used for a log line only
+//@ func (*Session).CountLeafQueues
+//@   props C10
+//@   requires ssn != nil && ssn.ClusterInfo != nil
+//@   assume forall k in ssn.ClusterInfo.Queues :: ssn.ClusterInfo.Queues[k] != nil
+//@   note assumed: no nil queue is recorded in the snapshot
+//@   pure
+//@   loop 1
+//@     invariant forall k in visited :: k in ssn.ClusterInfo.Queues
+//@     invariant cnt == (count k in visited :: len(ssn.ClusterInfo.Queues[k].ChildQueues) == 0)
+//@   ensures [countsLeaves] result == (count k in ssn.ClusterInfo.Queues :: len(ssn.ClusterInfo.Queues[k].ChildQueues) == 0)
 //@ end
 
 // ---- stable fields (engine batches 7-9): written by constructors / plugin registration only; govc checks
@@ -987,3 +1557,18 @@ package framework
 //@ stable Session.PreemptScenarioValidatorFns
 //@ stable Session.ReclaimVictimFilterFns
 //@ stable Session.PreemptVictimFilterFns
+// (helper "sess") the registration slices of the dispatch wrappers: each is written only by its Add...Fn method
+//@ stable slicetype []Operation
+//@ stable Session.PredicateFns
+//@ stable slicetype []api.PredicateFn
+//@ stable Session.PrePredicateFns
+//@ stable slicetype []api.PrePredicateFn
+//@ stable Session.SubsetNodesFns
+//@ stable slicetype []api.SubsetNodesFn
+//@ stable slicetype []node_info.NodeSet
+//@ stable Session.NodeOrderFns
+//@ stable slicetype []api.NodeOrderFn
+//@ stable Session.NodePreOrderFns
+//@ stable slicetype []api.NodePreOrderFn
+//@ stable Session.PreJobAllocationFns
+//@ stable slicetype []api.PreJobAllocationFn
